@@ -230,12 +230,42 @@ Definition rcase := (nat * list (list Q) * option (list (list Q)) * list Q * lis
 Definition near (a b : Qc) : bool :=
   Qle_bool (Qabs (this a - this b)) (eps20 * (Qabs (this a) + Qabs (this b))) && negb (Qc_eqb a b).
 
-(** rounding-decided test at iterate j: the two sides nearly equal, or exactly equal after at
-    least one (inexact) floating-point iteration *)
-Fixpoint frag_list (nums : list Qc) (tsq : Qc) (j : nat) : bool :=
+(** Tolerance rule (what rounding justifies, and no more).  Floating-point CG deviates from
+    exact CG by rounding errors that are proportional to the LARGEST magnitudes that occurred in
+    the run (x = x + alpha p rounds at the size of the iterates, r = r - alpha A p at the size of
+    the residuals) and are then amplified by the conditioning of the preconditioned system over
+    the <= 6 iterations compared.  Hence
+      x        : |x_i(impl) - x_i(model)| <= 2^-30 * (1 + X),   X = max_j max_i |x_j,i| over the
+                 iterates j = 0..num_iter the run visited (x0 included);
+      rel_res  : with a = rel_res*||b|| (impl) and b' = sqrt(num) (model):
+                 |a^2 - b'^2| <= 2^-30 (1 + b'^2)                    (relative, as before)   or
+                 |a - b'|     <= 2^-30 * sqrt(1 + N),  N = max_j num_j over the visited iterates;
+      num_iter : exactly, unless some test num_j > tsq is within rounding of the threshold:
+                 |num_j - tsq| <= 2^-20 (|num_j| + tsq)  or  |sqrt num_j - sqrt tsq| <= 2^-28 sqrt(1+N_j)
+                 (then the case is reported as fragile and not compared: either decision is accepted).
+    2^-30 = 2^23 unit roundoffs: room for an amplification of ~8e6, i.e. about kappa(MA)^1.5 for
+    the generated systems (kappa(A) <= ~150, diagonal M with entry ratio <= 256, full M ~ A/8).
+    For runs of moderate size (X, N ~ 1..100) this is the rule used before; it is wider only by the
+    factor of the data the code was actually given (e.g. x0 ~ 128 and ||r0|| ~ 1e3 with ||b|| ~ 1).
+    Square roots are avoided:  |a - b| <= t  <=>  a^2 + b^2 - t^2 <= 2ab  (a, b >= 0). *)
+Definition sqrt_close (t2 a2 b2 : Q) : bool :=
+  let d := (a2 + b2 - t2)%Q in
+  Qle_bool d 0 || Qle_bool (d * d) (4 * a2 * b2).
+
+Definition qmax (a b : Q) : Q := if Qle_bool a b then b else a.
+Definition maxl (l : list Q) : Q := fold_right qmax 0%Q l.
+Definition eps28 : Q := 1 # 268435456.
+
+(** rounding-decided test at iterate j: the two sides nearly equal (relative to themselves, or to
+    the largest num seen so far), or exactly equal after at least one inexact iteration *)
+Fixpoint frag_list (nums : list Qc) (tsq : Qc) (j : nat) (nmax : Q) : bool :=
   match nums with
   | [] => false
-  | a :: r => near a tsq || (Qc_eqb a tsq && negb (Nat.eqb j 0)) || frag_list r tsq (S j)
+  | a :: r =>
+      let nmax' := qmax nmax (this a) in
+      near a tsq || (Qc_eqb a tsq && negb (Nat.eqb j 0))
+      || (sqrt_close (eps28 * eps28 * (1 + nmax')) (this a) (this tsq) && negb (Nat.eqb j 0))
+      || frag_list r tsq (S j) nmax'
   end.
 
 Definition obs_kmax {X Y Z} (obs : list (nat * X * Y * Z)) : nat :=
@@ -249,11 +279,16 @@ Definition r_obs_ok n (tsq bb : Qc) (sts : list (st Qc (tup Qc n))) (o : robs) :
   match pick_state Qc (fun num => negb (Qc_leb num tsq)) n maxiter sts with
   | None => false
   | Some s =>
+      let visited := firstn (S (sii _ _ s)) sts in
+      let xscale := (1 + maxl (map (fun t => maxl (map (fun m => Qabs (this m)) (to_list n (sx _ _ t)))) visited))%Q in
+      let nmax := maxl (map (fun t => this (snum _ _ t)) visited) in
       Nat.eqb (sii _ _ s) it &&
-      all2 (fun m i => close eps30 i (this m)) (to_list n (sx _ _ s)) x &&
+      all2 (fun m i => Qle_bool (Qabs (i - this m)) (eps30 * xscale)) (to_list n (sx _ _ s)) x &&
       match rr with
       | None => Qc_eqb bb 0%Qc
-      | Some v => negb (Qc_eqb bb 0%Qc) && close eps30 (v * v * this bb) (this (snum _ _ s))
+      | Some v => negb (Qc_eqb bb 0%Qc) &&
+                  (close eps30 (v * v * this bb) (this (snum _ _ s))
+                   || sqrt_close (eps30 * eps30 * (1 + nmax)) (v * v * this bb) (this (snum _ _ s)))
       end
   end.
 
@@ -267,7 +302,7 @@ Definition r_case_ok (c : rcase) : bool :=
 Definition r_case_fragile (c : rcase) : bool :=
   let '(n, A, M, b, x0, tol, atol, obs) := c in
   let tsq := r_tolsq n tol atol (rvec n b) in
-  frag_list (map (fun s => snum _ _ s) (r_states n A M b x0 (obs_kmax obs))) tsq 0.
+  frag_list (map (fun s => snum _ _ s) (r_states n A M b x0 (obs_kmax obs))) tsq 0 0%Q.
 
 (** complex *)
 Definition cobs := (nat * list (Q * Q) * nat * option Q)%type.
@@ -281,12 +316,19 @@ Definition c_obs_ok n (tsq bb : Qc) (sts : list (st C (tup C n))) (o : cobs) : b
   match pick_state C (fun num => Cgt num tsq) n maxiter sts with
   | None => false
   | Some s =>
+      let visited := firstn (S (sii _ _ s)) sts in
+      let xscale := (1 + maxl (map (fun t => maxl (map (fun m => qmax (Qabs (this (fst m))) (Qabs (this (snd m))))
+                                                       (to_list n (sx _ _ t)))) visited))%Q in
+      let nmax := maxl (map (fun t => this (fst (snum _ _ t))) visited) in
       Nat.eqb (sii _ _ s) it &&
-      all2 (fun m i => close eps30 (fst i) (this (fst m)) && close eps30 (snd i) (this (snd m)))
+      all2 (fun m i => Qle_bool (Qabs (fst i - this (fst m))) (eps30 * xscale)
+                       && Qle_bool (Qabs (snd i - this (snd m))) (eps30 * xscale))
            (to_list n (sx _ _ s)) x &&
       match rr with
       | None => Qc_eqb bb 0%Qc
-      | Some v => negb (Qc_eqb bb 0%Qc) && close eps30 (v * v * this bb) (this (fst (snum _ _ s)))
+      | Some v => negb (Qc_eqb bb 0%Qc) &&
+                  (close eps30 (v * v * this bb) (this (fst (snum _ _ s)))
+                   || sqrt_close (eps30 * eps30 * (1 + nmax)) (v * v * this bb) (this (fst (snum _ _ s))))
       end
   end.
 
@@ -300,7 +342,7 @@ Definition c_case_ok (c : ccase) : bool :=
 Definition c_case_fragile (c : ccase) : bool :=
   let '(n, A, M, b, x0, tol, atol, obs) := c in
   let tsq := c_tolsq n tol atol (cvec n b) in
-  frag_list (map (fun s => fst (snum _ _ s)) (c_states n A M b x0 (obs_kmax obs))) tsq 0.
+  frag_list (map (fun s => fst (snum _ _ s)) (c_states n A M b x0 (obs_kmax obs))) tsq 0 0%Q.
 
 (** cg_solver (scan): observation = maxiter, returned x (None = contains nan).
     [exact] = the data were generated so that float arithmetic is exact (b = 0, A = 2^k I, ...):
